@@ -2152,6 +2152,13 @@ class ResetIndex(Elemwise):
                 # replace the projection of the former index with the actual index
                 subs = Projection(self, name)
                 predicate = parent.predicate.substitute(subs, Index(self.frame))
+                # the remaining parts of the predicate select ordinary columns
+                if self.frame.ndim == 1:
+                    predicate = predicate.substitute(
+                        Projection(self, self.frame._meta.name), self.frame
+                    )
+                else:
+                    predicate = predicate.substitute(self, self.frame)
             elif self.frame.ndim == 1 and not self.operand("drop"):
                 name = self.frame._meta.name
                 # Avoid Projection since we are already a Series
